@@ -187,7 +187,7 @@ fn close_channel(log: &mut Vec<LogEntry>, ch: usize, chan: &mut Chan, rng: &mut 
 }
 
 /// offline checker over the recorded log
-fn check_log(c: &mut Ctx, m: &Merchant, log: &[LogEntry], label: &str) {
+fn check_log(c: &mut Ctx, m: &Merchant, log: &[LogEntry], label: &str, judge_from: usize) {
     let mut seen: HashMap<Vec<u8>, String> = HashMap::new();
     match trace(&m.ccfg) {
         Ok(t) => {
@@ -208,7 +208,7 @@ fn check_log(c: &mut Ctx, m: &Merchant, log: &[LogEntry], label: &str) {
             Err(err) => return c.inconclusive(&format!("C14: cannot trace logged {}: {}", e.kind, err)),
         };
         let prov = format!("{}#{}:ch{}:{}", e.dir, i, e.channel, e.kind);
-        if e.dir == "c2m" {
+        if e.dir == "c2m" && i >= judge_from {
             c.eval();
             c.distinct(&format!("{}/{}/{}", label, i, e.kind));
             checked += 1;
@@ -254,6 +254,95 @@ fn check_log(c: &mut Ctx, m: &Merchant, log: &[LogEntry], label: &str) {
     c.count("messages_checked", checked);
 }
 
+/// Entropy failures: the customer's RNG fails at one request (`try_fill_bytes` returns an error, the
+/// infallible calls panic). Either no message comes out, or the message obeys the same rules as every
+/// other message. Judged against the log of the finished group (side log: the main log is not altered).
+fn rng_fault_pass(c: &mut Ctx, m: &'static Merchant, log: &[LogEntry], chans: &[Chan], inits: &[(u64, u64, Vec<u8>)], label: &str, rng: &mut (impl RngCore + CryptoRng)) {
+    use crate::srng::ScriptRng;
+    use zkabacus_crypto::Context;
+    for (ch, chan) in chans.iter().enumerate() {
+        if chan.closed {
+            continue;
+        }
+        let Stage::Ready(ready) = &chan.s.stage else { continue };
+        let mut seed = [0u8; 32];
+        rng.fill_bytes(&mut seed);
+        // closing with a failing RNG (the only request close() makes)
+        {
+            let mut fr = ScriptRng::new(seed);
+            fr.fail_at = Some(0);
+            c.eval();
+            c.distinct(&format!("{}/rng-fault/close/ch{}", label, ch));
+            let Ok(copy) = crate::wire::copy(ready) else { continue };
+            match guard(|| copy.close(&mut fr)) {
+                Err(_) => c.count("rng_fault_no_message[close]", 1),
+                Ok(cm) => {
+                    c.count("rng_fault_message_produced[close]", 1);
+                    let mut side = log.to_vec();
+                    let from = side.len();
+                    side.push(LogEntry { channel: ch, dir: "c2m", kind: "closing_message", bytes: enc(&cm), secrets: secrets_of(&chan.s.stage, &["state/revocation_pair/lock"]) });
+                    check_log(c, m, &side, &format!("{}/rng-fault/close/ch{}", label, ch), from);
+                }
+            }
+        }
+        // starting a payment with a failing RNG at draw d
+        let (_, _, ctxb) = &inits[ch];
+        let Ok(amt) = amount(0) else { continue };
+        let mut dry = ScriptRng::new(seed);
+        let ndraws = match crate::wire::copy(ready) {
+            Ok(r) => {
+                let _ = guard(|| r.start(&mut dry, amt, &Context::new(ctxb), &m.ccfg).is_ok());
+                dry.draws()
+            }
+            Err(_) => continue,
+        };
+        let picks: Vec<usize> = if c.tier == crate::ctx::Tier::Quick {
+            // the draws that feed signature re-randomisation lie at the end of each signature proof:
+            // a spread over the whole call plus a random few
+            let mut v: Vec<usize> = (0..ndraws).filter(|d| d % 9 == 5).collect();
+            for _ in 0..3 {
+                v.push((rng.next_u32() as usize) % ndraws.max(1));
+            }
+            v.sort();
+            v.dedup();
+            v
+        } else {
+            (0..ndraws).collect()
+        };
+        for d in picks {
+            let mut fr = ScriptRng::new(seed);
+            fr.fail_at = Some(d);
+            c.eval();
+            c.distinct(&format!("{}/rng-fault/start/ch{}/draw{}", label, ch, d));
+            let Ok(copy) = crate::wire::copy(ready) else { continue };
+            let before = secrets_of(&chan.s.stage, &["state/nonce"]);
+            match guard(|| copy.start(&mut fr, amt, &Context::new(ctxb), &m.ccfg)) {
+                Err(_) => c.count("rng_fault_no_message[start]", 1),
+                Ok(Err(_)) => c.count("rng_fault_refused[start]", 1),
+                Ok(Ok((started, msg))) => {
+                    if !fr.failed {
+                        continue;
+                    }
+                    c.count("rng_fault_message_produced[start]", 1);
+                    let mut sec = before;
+                    if let Ok(t) = trace(&started) {
+                        for a in &t.atoms {
+                            if a.is_scalar() && a.fpath != "old_state/nonce" {
+                                sec.push((format!("started:{}", a.fpath), t.atom_bytes(a).to_vec()));
+                            }
+                        }
+                    }
+                    let mut side = log.to_vec();
+                    let from = side.len();
+                    side.push(LogEntry { channel: ch, dir: "c2m", kind: "nonce", bytes: enc(&msg.nonce), secrets: sec.clone() });
+                    side.push(LogEntry { channel: ch, dir: "c2m", kind: "pay_proof", bytes: enc(&msg.pay_proof), secrets: sec });
+                    check_log(c, m, &side, &format!("{}/rng-fault/start/ch{}/draw{}", label, ch, d), from);
+                }
+            }
+        }
+    }
+}
+
 fn run_group(c: &mut Ctx, m: &'static Merchant, name: &str, nchan: usize, rounds: usize) {
     let mut rng = c.rng(name);
     let mut log: Vec<LogEntry> = vec![];
@@ -292,6 +381,11 @@ fn run_group(c: &mut Ctx, m: &'static Merchant, name: &str, nchan: usize, rounds
             Err(e) => return c.inconclusive(&format!("C14: honest step failed ({}) — C04's subject", e)),
         }
     }
+    // entropy failures on the channels that are still open (judged against the log so far)
+    {
+        let snapshot = log.clone();
+        rng_fault_pass(c, m, &snapshot, &chans, &inits, name, &mut rng);
+    }
     // every channel still open closes at the end, from whatever stage it is in
     for ch in 0..nchan {
         if !chans[ch].closed && chans[ch].s.stage.name() != "requested" {
@@ -303,7 +397,7 @@ fn run_group(c: &mut Ctx, m: &'static Merchant, name: &str, nchan: usize, rounds
         }
     }
     c.count("payments", chans.iter().map(|x| x.payments as i64).sum());
-    check_log(c, m, &log, name);
+    check_log(c, m, &log, name, 0);
     let kinds: BTreeSet<String> = log.iter().map(|e| format!("{}:{}", e.dir, e.kind)).collect();
     c.sample(json!({"group": name, "channels": nchan, "messages": log.len(), "kinds": kinds,
                      "order_head": log.iter().take(24).map(|e| format!("ch{} {} {}", e.channel, e.dir, e.kind)).collect::<Vec<_>>()}));
